@@ -19,6 +19,7 @@ type C07Params struct {
 	Scripts [][]string
 	Tasks   int
 	Body    string // plain, requeue (task 1 queues itself once while running), long (task 1 runs for 2 virtual minutes), long2 (task 2 does)
+	Late    bool   // keep exploring while the virtual clock is advanced (interleavings at the moments the deadlines expire)
 	Serial  bool   // judge "one after the other": no task begins while another one runs, unless the execution-wait limit or a maximum delay has passed
 	Blocker bool   // a blocker task holds the queue until all submissions are in (order clause)
 }
@@ -31,6 +32,9 @@ func (p C07Params) Name() string {
 	n := fmt.Sprintf("c07/%s/tasks=%d/body=%s/blocker=%v", strings.Join(ss, "|"), p.Tasks, p.Body, p.Blocker)
 	if p.Serial {
 		n += "/serial"
+	}
+	if p.Late {
+		n += "/late"
 	}
 	return n
 }
@@ -167,6 +171,13 @@ func VerifC07(p C07Params) *vsched.Scenario {
 						vsched.Quiesce() // the caller waits until everything submitted so far has been processed
 						continue
 					}
+					if sym == "r5" {
+						// five virtual seconds pass and the timers that become due fire, but the woken handlers do not get
+						// to run first: they race with the caller's next call
+						vsched.Quiesce()
+						vsched.AdvanceRacing(5 * time.Second)
+						continue
+					}
 					ti := int(sym[len(sym)-1] - '0')
 					op := sym[:len(sym)-1]
 					t := s.tasks[ti]
@@ -216,10 +227,13 @@ func VerifC07(p C07Params) *vsched.Scenario {
 		}
 		// horizon: let everything run, pass every schedule / max-delay / execution-wait deadline
 		vsched.Quiesce()
-		vsched.Explore(false)
+		if !p.Late {
+			vsched.Explore(false)
+		}
 		for k := 0; k < 12; k++ {
 			vsched.Advance(50 * time.Second)
 		}
+		vsched.Explore(false)
 		_ = blockerDone
 		c07judge(p, s, submitEnd)
 		_ = Shutdown()
@@ -426,7 +440,7 @@ func c07judge(p C07Params, s *c07state, submitEnd int) {
 		}
 		ok := true
 		for _, sym := range p.Scripts[0] {
-			if sym == "w" {
+			if sym == "w" || sym == "r5" {
 				ok = false
 				continue
 			}
